@@ -14,8 +14,6 @@ import (
 // digests are computed twice - by the symbolic executor (everything concrete, so its interpreter and
 // constant folder do all the work) and by the natively compiled code - and must agree.
 
-
-
 func zzMix(h, v uint64) uint64 {
 	h ^= v + 0x9e3779b97f4a7c15 + (h << 6) + (h >> 2)
 	return h
